@@ -97,6 +97,27 @@ listed as a finding.
   write. All harness state is now behind one mutex.
 * **Race reports on `verifhook.ReleaseFn`**: race-mode hooks were installed after the engine had
   started goroutines; they are installed first now.
+* **C08 R4 after a failed recovery** (thorough tier, seed 2017418, on the unchanged tree): a
+  payload with a bad quota was rejected and the fault hit the gateway's own restore
+  (`fs.create quotas/q.yaml`, second occurrence); the directory then held the new flow without
+  the quota file and the roll-back reload loaded that mix, so a probe saw "421". Two
+  failures in one update are outside the fault model (R1/R2 were already exempt); R4 now also
+  skips probes that finish after the second failure.
+* **C06 with engine goroutines scheduled** (during development of that mode, never committed
+  as failing): (1) `queue.dequeued` was emitted after the queue lock was released, so a push
+  could be logged between the pop and its event (order alarm) - the event moved under the lock
+  (`mq.pop`); (2) a goroutine parked at a lock site while the clock moves is a stall: deadlines
+  now wait out (chained) stall intervals of the loop and the watcher instead of being waived;
+  (3) stalls that begin inside a jump, or inside the 1 microsecond between arrivals, were not
+  recorded - multi-tick jumps now let the engine goroutines run freely until the last tick.
+* **C10 with the roll-over goroutine scheduled**: the microsecond between two arrivals could
+  cross a window end with the roll-over goroutine parked at its lock site, i.e. stalled for
+  999 ns, and R1 (slots handed out *at* the roll-over instant) fired on the unchanged tree;
+  the goroutine now runs freely whenever the clock moves.
+* **C03 query requirement without a value**: the first version of the reference demanded that
+  any value satisfies a key-only requirement; the engine requires the empty value (its
+  "value not specified" branch is dead code, `GetParamValue` never returns nil). The property
+  does not fix this, so a non-empty value against a key-only requirement is not judged.
 ''')
 out.append('''---------------------------------------------------------------------------------------
 
@@ -109,7 +130,10 @@ demonstration. A change is kept under `/verif/seeded/<id>/` (patch.diff, demo/, 
 the agent's README) only after `tools/verify_mutant.sh` confirmed in a fresh worktree of the
 current /repo HEAD that the patch applies and builds, the pinned suite of the touched module
 still passes, the demo passes without and fails with the patch. `tools/record_mutant.py`
-applies the patch to /repo, runs the property's quick check, reverts, and writes meta.json.
+applies the patch to a fresh scratch worktree of /repo HEAD, runs the property's quick check
+against it (development overrides `VERIF_REPO`/`VERIF_BINDIR`, never set by a registered
+command; equivalent to `git -C /repo apply` + check + `git -C /repo checkout -- .`, which
+`tools/run_on_mutant.sh` still does, but several can run side by side), and writes meta.json.
 Changes whose patch no longer applied after a repair in /repo were ported by hand
 (`patch.orig.diff` is the agent's original).
 
@@ -119,8 +143,18 @@ for d in sorted(glob.glob('/verif/seeded/*')):
     mp=d+'/meta.json'
     if not os.path.exists(mp): continue
     m=json.load(open(mp))
+    verdict='caught' if m.get('detected') else 'MISSED (exit %s)'%m.get('check_exit')
+    if m.get('applies_to_head') is False: verdict='superseded (see note)'
+    if m.get('detected') and m.get('detected_by') and m.get('detected_by')!=m.get('breaks_property'): verdict='caught by the %s check'%m['detected_by']
     out.append('| %s | %s | %s | %s | %s |'%(m.get('id',os.path.basename(d)),m.get('breaks_property','?'),m.get('needs_to_manifest',''),
-        'caught' if m.get('detected') else 'MISSED (exit %s)'%m.get('check_exit'), '; '.join(m.get('violations_reported',[]))[:160]))
+        verdict, '; '.join(m.get('violations_reported',[]))[:160]))
+notes=[]
+for d in sorted(glob.glob('/verif/seeded/*')):
+    mp=d+'/meta.json'
+    if os.path.exists(mp):
+        m=json.load(open(mp))
+        if m.get('note'): notes.append('* %s: %s'%(m['id'],m['note']))
+if notes: out.append('\nNotes:\n'+'\n'.join(notes))
 out.append('''
 Misses on first contact and what was changed (all are caught now):
 C08a (no payload re-sent an existing file with *shorter* content: class `shrink-flow` added),
@@ -132,8 +166,40 @@ C12b (equal body sizes, no concurrent stores for one key: sizes 50/300/600 kB an
 C18b (no enclosing wildcard flows in the C18 configuration: three added),
 C03b (a header key was never listed twice: alternatives added).
 C06b (TTL elapsing inside one quota check of the processing loop) was not confirmed - its
-demonstration fails on the unchanged tree as well - and is not kept; it needs the engine's
-background goroutines to be schedulable at lock sites (section 13).
+demonstration fails on the unchanged tree as well - and is not kept.
+
+Third wave (suffix c), 16 changes: 6 were caught as delivered (C01c, C04c, C11c, C15c, C17c,
+C19c), 10 were missed at first. What was changed:
+C09c (group names never differed by case only, and the unit-test hasher MD5 was used: case
+variants and the production identity obfuscator added),
+C12c (one selected path parameter: two-parameter keys with separator characters and one-sided
+absence added),
+C10c (the roll-over goroutine always won the mutex at a window end: it is schedulable now and
+arrivals are placed ahead of it),
+C06c and C18c (a TTL could not elapse while the processing loop held the request: the
+engine's own goroutines are scheduled at lock sites in a third of the C06 runs, the loop is
+driven until it holds a waiting request and the clock moved to that request's expiry; order
+and quota admission are judged at decision-point events, deadlines wait out stall intervals),
+C03c (no query requirement without a value, no empty query values: added),
+C20c (the predicate script always began healthy: a quarter begin unhealthy),
+C08c (a transaction during a *failed* update was allowed to see the new configuration: R4 now
+demands the old one),
+C05c (quota files had no hierarchy of internal limits: shuffled hierarchies added),
+C02c (no second quota on the URL of the concurrency quota: added - and the mirrored order the
+sub-agent mentioned turned out to be a genuine defect of the unchanged tree, fix `3c5df4b`).
+
+### 12.1 Reverting the repairs
+
+`tools/revert_all_fixes.py` reverts every `fix:` commit, one at a time, in a scratch worktree
+of /repo HEAD and runs the quick check of its property (`seeded/fix-reverts.json`):
+
+| commit | property | quick check on the reverted tree | rules |
+|---|---|---|---|''')
+fr='/verif/seeded/fix-reverts.json'
+if os.path.exists(fr):
+    for r in json.load(open(fr))['reverts']:
+        out.append('| `%s` | %s | %s | %s |'%(r['commit'],r.get('property') or '-',r['result'],'; '.join(r.get('violations_reported') or [])[:140]))
+out.append('''
 ''')
 out.append(open('/verif/tools/design_status.md').read() if os.path.exists('/verif/tools/design_status.md') else '')
 open(D,'w').write(s+'\n'.join(out)+'\n')
